@@ -295,7 +295,7 @@ class Builtins:
             n = z3.Length(base.t)
             j = eng.norm_index(st, n, idx.t)
             eng.require(st, z3.And(j >= 0, j < n), "IndexError", node, "string index")
-            return VStr(z3.SubString(base.t, j, 1))
+            return VStr(char_at(base.t, j))
         if isinstance(base, VExt):
             return self.ext_subscript(st, base, idx, node)
         if isinstance(base, E.VOpaque):
@@ -954,7 +954,8 @@ class Builtins:
                 s.env = saved
 
         # safety of evaluating the element expression / conditions on every element (no exception inside)
-        self.comp_safety(st, n, g, itv, arr, nlen, bind)
+        if not st.spec_mode:
+            self.comp_safety(st, n, g, itv, arr, nlen, bind)
         comp = VComp(arr, nlen, itv.elem, map_fn, pred_fn if g.ifs else None, cstate, n)
         if kind == "gen":
             return comp
@@ -1060,6 +1061,28 @@ class Builtins:
         st.ghost["comps"] = comps
         return res
 
+    def _skeleton(self, ent):
+        """Cheap filter before a link attempt: the multiset of literal constants of the predicate. Predicates that differ in
+        their constants (cat(v) == 0 vs cat(v) == 1) are not tried (skipping an attempt only loses completeness)."""
+        if "skel" in ent:
+            return ent["skel"]
+        consts = []
+        seen = set()
+        stack = [ent["t"]]
+        while stack:
+            t = stack.pop()
+            if t.get_id() in seen:
+                continue
+            seen.add(t.get_id())
+            if z3.is_quantifier(t):
+                stack.append(t.body())
+            elif z3.is_int_value(t) or z3.is_string_value(t) or z3.is_rational_value(t):
+                consts.append(str(t))
+            elif z3.is_app(t):
+                stack.extend(t.children())
+        ent["skel"] = tuple(sorted(consts))
+        return ent["skel"]
+
     def _src_map_of(self, st, arr):
         if z3.is_app(arr) and arr.decl().kind() == z3.Z3_OP_SELECT and z3.is_const(arr.arg(0)):
             return arr.arg(0)
@@ -1073,6 +1096,9 @@ class Builtins:
             if other is ent or other["kind"] != ent["kind"] or "fn" not in other or "fn" not in ent:
                 continue
             if other["x"].sort() != ent["x"].sort() or other["t"].sort() != ent["t"].sort():
+                continue
+            # only predicates of the same shape up to the heap maps they read can differ merely by the heap version
+            if self._skeleton(other) != self._skeleton(ent):
                 continue
             key = (other["idx"], ent["idx"], arr.get_id(), n.get_id())
             done = st.ghost.get("linked", frozenset())
@@ -1371,6 +1397,11 @@ class Builtins:
         old = st.ghost.get("old_state")
         if old is None or not isinstance(v, (VObj, VList, VDict)):
             raise E.Unsupported("fresh()", node)
+        st.assume(v.ref <= st.alloc)
+        if isinstance(v, VDict):
+            # a freshly allocated dict owns a freshly allocated key list
+            st.assume(z3.Select(st.dkeys(), v.ref) <= st.alloc)
+            return VBool(z3.And(v.ref > old.alloc, z3.Select(st.dkeys(), v.ref) > old.alloc))
         return VBool(v.ref > old.alloc)
 
     def sp_count_if(self, st, args, kwargs, node):
@@ -1436,7 +1467,7 @@ class Builtins:
             k = z3.Int("sck!")
             ax = self.eng.axioms
             ax.append(FA([a, c], f(a, c, 0) == 0), keys={"STRCNT"})
-            ax.append(FA([a, c, k], z3.Implies(k >= 0, f(a, c, k + 1) == f(a, c, k) + z3.If(z3.SubString(a, k, 1) == c, 1, 0)),
+            ax.append(FA([a, c, k], z3.Implies(k >= 0, f(a, c, k + 1) == f(a, c, k) + z3.If(char_at(a, k) == c, 1, 0)),
                          patterns=[f(a, c, k + 1)]), keys={"STRCNT"})
         return VInt(f(sv.t, ch.t, n))
 
